@@ -88,6 +88,7 @@ def run_case(cfg, pool, items, offsets):
         lst2 = {x.lower() for x in cfg.get("include_list", [])}
         out = []
         msg_ok = {}          # message index -> all frames accepted so far
+        first_ok = {}        # (pgn, src, dest, sequence counter) -> messages whose first frame was let through
         stats = {"reclaim": 0, "claimed_sources": 0, "data_before_claim": 0, "withheld": 0, "filtered": 0, "returned": 0}
         case = {"config": cfg, "items": [traffic.item_json(i) for i in items], "offsets": list(offsets)}
         for pos, (it, off) in enumerate(zip(items, offsets)):
@@ -142,11 +143,25 @@ def run_case(cfg, pool, items, offsets):
                 msg_ok[mi] = msg_ok.get(mi, True) and gate
             last = it["kind"] in ("single", "combined") or (it["kind"] == "fastframe" and is_last(items, pos))
             expect_msg = last and msg_ok[mi] is True
+            # Frames are filtered one by one, so an EARLIER message of the same stream (PGN, source, destination) whose first frame was let
+            # through and whose later frames were withheld leaves its beginning behind in the reassembly slot; a later message with the
+            # same sequence counter then continues / collides with it. What the decoder returns for such a message is reassembly
+            # behaviour (C04), not identity or manufacturer filtering: no expectation either way.
+            stale = False
+            if it["kind"] == "fastframe":
+                skey = (it["pgn"], src, it["dest"], it["data"][0] >> 5)
+                stale = any(mj != mi and msg_ok.get(mj) is not True for mj in first_ok.get(skey, ()))
+                if it.get("frame") == 0 and gate and not undefined:
+                    first_ok.setdefault(skey, set()).add(mi)
+                if stale:
+                    stats["stale_beginning_on_stream"] = stats.get("stale_beginning_on_stream", 0) + 1
             if msg_ok[mi] is None:
                 if r is not None:
                     out += check_identity(r, ident, pos, case, "data")
                 continue
-            if r is not None and not msg_ok[mi]:
+            if stale and ((r is not None and not msg_ok[mi] and gate) or (expect_msg and r is None)):
+                pass
+            elif r is not None and not msg_ok[mi]:
                 why = "unclaimed source with network map on" if ident is None else f"manufacturer {ident['manufacturer_code']!r} not allowed by {cfg['mode']} {cfg['list']}"
                 kind = "leak-before-claim" if ident is None else "leak-manufacturer-" + cfg["mode"]
                 out.append((f"C11|{kind}", f"position {pos}: message {r.PGN}/{r.id} from source {src} returned although {why}", case))
